@@ -554,7 +554,7 @@ func init() {
 			objs = realSizes(objs, times)
 			var refs []string
 			for _, rf := range genE2ERefs(r, objs) {
-				if !strings.Contains(strings.SplitN(rf, "=", 2)[1], "@") { // symbolic references: not part of this engine's fragment
+				if !strings.Contains(rf, "@") { // symbolic references and the long-name marker: not part of this engine's fragment
 					refs = append(refs, rf)
 				}
 			}
